@@ -70,7 +70,7 @@ theorem idle_of_quiescent {s : St} (hq : quiescent s = true) (hx : s.exited = fa
 theorem clean_of_idle {s : St} (hI : Inv s) (hi : Idle s) :
     s.pending = false ∧ s.suppress = 0 ∧ s.progress.isBusy = false ∧ s.active = false ∧
     s.reloading = false := by
-  obtain ⟨tok, sup, wfw, wfm, rel1, store, note, busy, act, proc⟩ := hI
+  obtain ⟨tok, sup, wfw, wfm, rel1, store, note, busy, act, proc, tail, own⟩ := hI
   obtain ⟨hm, hw, hq, hn, g1, g2, g3, g4, g5, _⟩ := hi
   simp only [tokens, owed, hm, hw, hq, g1, g2, g3, anyRelM_nil, wsum_nil, List.length_nil, Bool.or_false,
     Bool.not_false, Bool.and_true] at tok sup
@@ -214,7 +214,7 @@ theorem mu_step_lt {s s' : St} {a : Act} (hs : step s a = some s') (ha : a.isExt
 /-- while a request is in progress, the system itself can always take another step. -/
 theorem progress_possible {s : St} (hI : Inv s) (hx : s.exited = false) (hp : s.pending = true) :
     ∃ a ∈ internalActs, (step s a).isSome = true := by
-  obtain ⟨tok, sup, wfw, wfm, rel1, store, note, busy, act, proc⟩ := hI
+  obtain ⟨tok, sup, wfw, wfm, rel1, store, note, busy, act, proc, tail, own⟩ := hI
   simp only [tokens, hp, Bool.toNat_true] at tok
   by_cases hm : s.m = []
   · by_cases hw : s.w = []
@@ -347,6 +347,7 @@ structure ClockOk (s : St) : Prop where
   mgr : s.mgrLeft ≤ totalSwitchBudget
   g : s.gLeft ≤ totalSwitchBudget
   age : 0 ≤ s.nextRet.age
+  mute : s.muteLeft ≤ quiesceNs
 
 theorem clock_exec (s : St) (x : Micro) (h : ClockOk s) :
     (exec s x).1.mgrLeft ≤ totalSwitchBudget ∧ (exec s x).1.gLeft ≤ totalSwitchBudget ∧
